@@ -132,8 +132,9 @@ Definition prim_step (p : prim_state) (t : tid) (c : prim_call) : outcome :=
   | PBroadcast c =>
       Return (set_sts (set_cnd p c []) (fun u => if blocked_on c (st p u) then wake 0 (st p u) else st p u)) 0
   | PSemWait s dl =>
-      if dl_bad dl then Return p EINVAL
-      else if 0 <? sem p s then Return (set_sem p s (sem p s - 1)) 0 else Blocked
+      (* glibc order: take the semaphore if it is available, check abstime only before blocking *)
+      if 0 <? sem p s then Return (set_sem p s (sem p s - 1)) 0
+      else if dl_bad dl then Return p EINVAL else Blocked
   | PSemTry s => if 0 <? sem p s then Return (set_sem p s (sem p s - 1)) 0 else Return p EAGAIN
   | PSemPost s => Return (set_sem p s (sem p s + 1)) 0
   | PCreate ch =>
